@@ -6,6 +6,10 @@ package gohlslib
 
 import (
 	"fmt"
+	"net/http"
+	"net/url"
+	"os"
+	"path/filepath"
 	"strings"
 
 	"github.com/bluenviron/gohlslib/v2/internal/zzverif/vh"
@@ -22,6 +26,101 @@ func init() {
 			r.sizeHook = st.hook
 		}
 		r.finalHook = c18Final
+		if r.cfg.Disk && r.cfg.MaxSize == 0 {
+			ov := &c18overlap{}
+			r.stepHook = ov.step
+			r.finalHook = func(r *e1run) { ov.final(r); c18Final(r) }
+		}
+	}
+}
+
+// c18overlap: several downloads of one whole segment are in progress (their clients are slow to take the body) when that
+// segment leaves the window; once they have finished, nothing of the segment may be left in Directory. The downloads block
+// inside the first Write of their ResponseWriter and are released by the harness: no clock is involved.
+type c18overlap struct {
+	started bool
+	path    string
+	rws     []*blockedRW
+	done    []chan struct{}
+}
+
+type blockedRW struct {
+	hdr     http.Header
+	status  int
+	entered chan struct{}
+	release chan struct{}
+	in      bool
+	n       int
+}
+
+func (w *blockedRW) Header() http.Header { return w.hdr }
+func (w *blockedRW) WriteHeader(s int)   { w.status = s }
+func (w *blockedRW) Write(p []byte) (int, error) {
+	if !w.in {
+		w.in = true
+		close(w.entered)
+		<-w.release
+	}
+	w.n += len(p)
+	return len(p), nil
+}
+
+func (o *c18overlap) step(r *e1run) {
+	if o.started || len(r.ops) < 4 {
+		return
+	}
+	ls := r.mi.m.leadingStream
+	ls.mutex.Lock()
+	for _, sg := range ls.segments {
+		if p := sg.getPath(); p != "" {
+			o.path = p
+			break
+		}
+	}
+	ls.mutex.Unlock()
+	if o.path == "" {
+		return
+	}
+	o.started = true
+	for k := 0; k < 3; k++ {
+		w := &blockedRW{hdr: http.Header{}, entered: make(chan struct{}), release: make(chan struct{})}
+		d := make(chan struct{})
+		o.rws, o.done = append(o.rws, w), append(o.done, d)
+		u, _ := url.Parse("http://localhost/" + o.path)
+		go func() {
+			defer close(d)
+			r.mi.m.Handle(w, &http.Request{Method: "GET", URL: u, Header: http.Header{}})
+		}()
+		select {
+		case <-w.entered: // the reader is open and the first bytes are on their way
+		case <-d: // answered without a body
+		}
+	}
+}
+
+func (o *c18overlap) final(r *e1run) {
+	if !o.started {
+		return
+	}
+	// the downloads finish one after the other
+	for k, w := range o.rws {
+		close(w.release)
+		<-o.done[k]
+	}
+	ls := r.mi.m.leadingStream
+	listed := false
+	ls.mutex.Lock()
+	for _, sg := range ls.segments {
+		if sg.getPath() == o.path {
+			listed = true
+		}
+	}
+	ls.mutex.Unlock()
+	if listed {
+		return // the word was too short for the segment to leave the window
+	}
+	if _, err := os.Stat(filepath.Join(r.mi.dir, o.path)); err == nil {
+		r.add("C18", "expired-file-left-after-downloads", "%s left the window while %d downloads of it were in progress; they have all finished and its file is still in Directory; ops %s", canon(o.path), len(o.rws), r.opsString())
 	}
 }
 
